@@ -177,7 +177,8 @@ pub struct XEnc {
     pub bool_words: bool,
     pub zip: ZipKnobs,
     /// sheetId numbering (ids are labels, not positions): 0 = 1..n in document order, 1 = descending,
-    /// 2 = ascending with gaps from 7, 3 = rotated by one
+    /// 2 = ascending with gaps from 7, 3 = rotated by one (value mod 4); (value / 4) mod 4 = attribute
+    /// order of the <sheet> elements; tableColumn ids follow the same numbering scheme
     pub sheet_ids: u8,
 }
 
@@ -623,7 +624,15 @@ pub fn parts(doc: &XlsxDoc) -> (Vec<(String, Vec<u8>)>, ZipKnobs) {
                 2 => 7 + 3 * i,
                 _ => (i + 1) % n + 1,
             };
-            w.empty("sheet", &format!(" name=\"{}\" sheetId=\"{}\"{state} r:id=\"rId{}\"", esc_attr(&s.name), sheet_id, i + 1));
+            // attribute order is free in XML: four of the 24 orders
+            let (a_name, a_id, a_rid) = (format!(" name=\"{}\"", esc_attr(&s.name)), format!(" sheetId=\"{sheet_id}\""), format!(" r:id=\"rId{}\"", i + 1));
+            let attrs = match (doc.enc.sheet_ids / 4) % 4 {
+                0 => format!("{a_name}{a_id}{state}{a_rid}"),
+                1 => format!("{a_name}{a_id}{a_rid}{state}"),
+                2 => format!("{a_rid}{state}{a_id}{a_name}"),
+                _ => format!("{state}{a_name}{a_rid}{a_id}"),
+            };
+            w.empty("sheet", &attrs);
         }
         w.close("sheets");
         if !doc.defined_names.is_empty() {
@@ -898,7 +907,16 @@ pub fn parts(doc: &XlsxDoc) -> (Vec<(String, Vec<u8>)>, ZipKnobs) {
                 }
                 tw.open("tableColumns", &format!(" count=\"{}\"", t.columns.len()));
                 for (k, c) in t.columns.iter().enumerate() {
-                    tw.empty("tableColumn", &format!(" id=\"{}\" name=\"{}\"", k + 1, esc_attr(c)));
+                    // column ids are labels (a column inserted later gets the next free id): position
+                    // in the list is what orders the columns
+                    let n = t.columns.len();
+                    let id = match doc.enc.sheet_ids % 4 {
+                        0 => k + 1,
+                        1 => n - k,
+                        2 => 7 + 3 * k,
+                        _ => (k + 1) % n + 1,
+                    };
+                    tw.empty("tableColumn", &format!(" id=\"{}\" name=\"{}\"", id, esc_attr(c)));
                 }
                 tw.close("tableColumns");
                 tw.empty("tableStyleInfo", " name=\"TableStyleMedium2\" showRowStripes=\"1\"");
